@@ -26,7 +26,9 @@ pub fn init_panic_capture() {
     cfg.silence_warnings = true;
     shuttle::Runner::new(sched, cfg).run(|| {});
     std::panic::set_hook(Box::new(|info| {
-        let msg = if let Some(s) = info.payload().downcast_ref::<&str>() {
+        let msg = if info.payload().downcast_ref::<crate::verif_seam::SimKill>().is_some() {
+            "SIMKILL".to_string()
+        } else if let Some(s) = info.payload().downcast_ref::<&str>() {
             s.to_string()
         } else if let Some(s) = info.payload().downcast_ref::<String>() {
             s.clone()
@@ -176,7 +178,18 @@ pub fn run_a(sc: &ScenarioA, keep_events: bool) -> OutcomeA {
 
     if result.is_err() {
         let (msg, loc) = panic.clone().unwrap_or_else(|| ("<unknown panic>".to_string(), String::new()));
-        if msg.starts_with("deadlock!") {
+        if msg == "SIMKILL" {
+            // the simulator itself unwound a search thread that ignored the stop flag
+            let v = sim.liveness_violation.clone().unwrap_or_else(|| "search ignored the stop flag".into());
+            let class = if v.contains("still polling") || v.contains("stop flag is ignored") {
+                "stop-not-honoured"
+            } else if v.contains("expired limit ignored") {
+                "limit-ignored"
+            } else {
+                "command-stuck"
+            };
+            found.insert(0, Found { class: class.into(), message: v, signature: class.into() });
+        } else if msg.starts_with("deadlock!") {
             found.insert(
                 0,
                 Found {
